@@ -33,6 +33,13 @@ def has(t, pred):
     return flow.term_contains(t, pred)
 
 
+def find(t, pred):
+    for x in _sub(t):
+        if pred(x):
+            return x
+    return None
+
+
 def is_call(x, pat):
     return isinstance(x, tuple) and len(x) == 4 and x[0] == "call" and isinstance(x[1], str) and names.is_(x[1], pat)
 
@@ -119,28 +126,50 @@ def run(chk):
         chk.ob("R1 writer layout", "R1|acd|3 cose key", ok, where(ii), "segment 3 = %s" % flow.term_str(seg2[3]))
 
     # ---------------- R2
+    # which bytes of the input feed which member, as byte-range views (rules/bytesview.py): split_at chains, range
+    # indexing, element reads and buffer copies all reduce to (input, lo, hi)
+    from . import bytesview
     iv = intervals.Intervals(p, fs)
-    splits = sorted(names.calls_to(fs, "slice::split_at"), key=lambda x: x[1]["line"] * 1000 + x[0])
-    ks = []
-    for bb, t in splits:
-        st = iv.at(bb, "t")
-        k = iv.iv_operand(st, t["args"][1]).exact() if st is not None else None
-        ks.append(k)
-    chk.ob("R2 reader = writer", "R2|from_slice|carving", ks == [32, 1, 4], where(fs), "split_at constants in order: %s (writer widths 32, 1, 4)" % ks)
-    # each split_at operates on the rest of the previous one
     Tf = flow.Terms(p, fs)
-    chained = True
-    prev = None
-    for bb, t in splits:
-        a0 = flow.simplify_term(Tf.operand(t["args"][0], bb, "t"))
-        if prev is None:
-            chained = chained and a0 == ("param", 1)
-        else:
-            chained = chained and a0 == ("field", prev, "1")
-        prev = ("call", Tf.call_name(t), (a0, flow.simplify_term(Tf.operand(t["args"][1], bb, "t"))), bb)
-    chk.ob("R2 reader = writer", "R2|from_slice|sequential", chained, where(fs), "each split_at carves the remainder of the previous one: %s" % chained)
+    Tf.indexed = True
+    IN = ("param", 1)
+    ags = find_aggs(fs, "AuthenticatorData")
+    v_hash = v_flag = v_cnt = v_rest = None
+    cnt_order = None
+    if chk.require("R2 reader = writer", "R2|from_slice|result", len(ags) == 1, where(fs), "AuthenticatorData construction not found"):
+        bb, i, rv = ags[0]
+        fld = dict(zip(rv["fields"], rv["ops"]))
+        th = N.norm(Tf.operand(fld["rp_id_hash"], bb, i))
+        tc = N.norm(Tf.operand(fld["counter"], bb, i))
+        tf = N.norm(Tf.operand(fld["flags"], bb, i))
+        v_hash = bytesview.closed_view(th)
+        fb_ = find(tf, lambda x: is_call(x, "Flags::from_bits") or is_call(x, "TryFrom::try_from") or is_call(x, "TryInto::try_into"))
+        if fb_ is not None and fb_[2]:
+            v_flag = bytesview.closed_view(fb_[2][-1])
+        if isinstance(tc, tuple) and len(tc) == 4 and tc[0] == "agg" and tc[2] == "Some" and len(tc[3]) == 1:
+            d = bytesview.int_decode(tc[3][0][1])
+            if d is not None:
+                cnt_order, v_cnt = d
+    for b2, t in fs.calls():
+        if names.call_is(t, "Cursor::new"):
+            v_rest = bytesview.closed_view(N.norm(Tf.operand(t["args"][0], b2, "t")))
+    pieces = [v_hash, v_flag, v_cnt]
+    widths = [(v[2] - v[1]) if v is not None and v[0] == IN and v[2] is not None else None for v in pieces]
+    chk.ob("R2 reader = writer", "R2|from_slice|carving", widths == [32, 1, 4], where(fs), "bytes of the input feeding rp_id_hash, flags, counter: %s (writer widths 32, 1, 4)" % [("%s..%s" % (v[1], v[2]) if v is not None and v[0] == IN else "?") for v in pieces])
+    seq = all(v is not None and v[0] == IN for v in pieces) and v_hash[1] == 0 and v_flag[1] == v_hash[2] and v_cnt[1] == v_flag[2] and v_rest is not None and v_rest[0] == IN and v_rest[1] == v_cnt[2] and v_rest[2] is None
+    chk.ob("R2 reader = writer", "R2|from_slice|sequential", bool(seq), where(fs), "each piece starts where the previous one ends, and the variable part is everything after the counter: rest = %s" % (("%s.." % v_rest[1]) if v_rest is not None and v_rest[0] == IN else "?"))
     guard = None
+    # comparisons that steer a branch (the bounds checks the compiler inserts before an element read are asserts: they panic)
+    asserted = set()
+    for blk in fs.blocks:
+        t = blk.get("term")
+        if t and t["k"] == "assert":
+            pl = flow.op_place(t["cond"])
+            if pl:
+                asserted.add(pl[0])
     for l, (op, a, b) in iv.cmp_defs.items():
+        if l in asserted:
+            continue
         sa, sb = iv.sym(a), iv.sym(b)
         if op in ("Lt", "Le", "Ge", "Gt") and (sa == ("l", 1) or sb == ("l", 1)):
             c = flow.const_bits(b) if sa == ("l", 1) else flow.const_bits(a)
@@ -150,46 +179,34 @@ def run(chk):
         op, c, len_first = guard
         # `len < c` / `c > len` reject ; accepted minimum length
         gmin = c if (op == "Lt" and len_first) or (op == "Gt" and not len_first) else (c + 1 if (op == "Le" and len_first) or (op == "Ge" and not len_first) else c)
-    chk.ob("R2 reader = writer", "R2|from_slice|guard=37", gmin == 37 and sum(k or 0 for k in ks) == 37, where(fs), "length guard accepts len >= %s; fixed part = %s" % (gmin, sum(k or 0 for k in ks)))
-    cnt = [t for bb, t in fs.calls() if names.call_is(t, "u32::from_be_bytes")]
-    le = [t for bb, t in fs.calls() if names.call_is(t, "u32::from_le_bytes", "u32::from_ne_bytes")]
-    chk.ob("R2 reader = writer", "R2|from_slice|counter big-endian", len(cnt) == 1 and not le, where(fs), "u32::from_be_bytes calls: %d, other endianness: %d" % (len(cnt), len(le)))
-    # which carved piece feeds which field
-    ags = find_aggs(fs, "AuthenticatorData")
-    if chk.require("R2 reader = writer", "R2|from_slice|result", len(ags) == 1, where(fs), "AuthenticatorData construction not found"):
-        bb, i, rv = ags[0]
-        fld = dict(zip(rv["fields"], rv["ops"]))
-        th = flow.simplify_term(Tf.operand(fld["rp_id_hash"], bb, i))
-        tc = flow.simplify_term(Tf.operand(fld["counter"], bb, i))
-        tf = flow.simplify_term(Tf.operand(fld["flags"], bb, i))
-        def piece(t):
-            # which split_at (by constant) and which half
-            out = []
-            for x in _sub(t):
-                if isinstance(x, tuple) and len(x) == 3 and x[0] == "field" and x[2] in ("0", "1") and isinstance(x[1], tuple) and x[1] and x[1][0] == "call" and names.is_(x[1][1], "slice::split_at"):
-                    out.append((x[1][2][1], x[2]))
-            return out
-        ph, pc, pf = piece(th), piece(tc), piece(tf)
-        ok = ph and ph[0] == (("const", 32), "0") and pc and pc[0] == (("const", 4), "0") and pf and pf[0] == (("const", 1), "0")
-        chk.ob("R2 reader = writer", "R2|from_slice|pieces", bool(ok), where(fs), "rp_id_hash <- %s, flags <- %s, counter <- %s" % (ph[:1], pf[:1], pc[:1]))
+    fixed = v_cnt[2] if v_cnt is not None and v_cnt[0] == IN else None
+    chk.ob("R2 reader = writer", "R2|from_slice|guard=37", gmin == 37 and fixed == 37, where(fs), "length guard accepts len >= %s; fixed part = %s" % (gmin, fixed))
+    chk.ob("R2 reader = writer", "R2|from_slice|counter big-endian", cnt_order == "be", where(fs), "counter decoded from its 4 bytes in %s order" % (cnt_order or "an unrecognised"))
+    ok = v_hash == (IN, 0, 32) and v_flag == (IN, 32, 33) and v_cnt == (IN, 33, 37)
+    chk.ob("R2 reader = writer", "R2|from_slice|pieces", bool(ok), where(fs), "rp_id_hash <- %s, flags <- %s, counter <- %s" % tuple(("input[%s..%s]" % (v[1], v[2]) if v is not None and v[0] == IN else "?") for v in pieces))
     # from_reader: read_exact sizes in order
     ivr = intervals.Intervals(p, fr)
     order = fr.rpo()
     reads = sorted(names.calls_to(fr, "Read::read_exact"), key=lambda x: order.get(x[0], 10**6))
     sizes = []
     Tr = flow.Terms(p, fr)
+    Tr.indexed = True
     for bb, t in reads:
         st = ivr.at(bb, "t")
         ln = ivr.len_operand(st, t["args"][1]) if st is not None else None
         sizes.append(ln.exact() if ln is not None and ln.exact() is not None else flow.term_str(flow.simplify_term(Tr.operand(t["args"][1], bb, "t")))[:80])
-    be16 = [t for bb, t in fr.calls() if names.call_is(t, "u16::from_be_bytes")]
     fe = names.calls_to(fr, "alloc::vec::from_elem")
-    dyn_ok = False
+    dyn_ok = be_ok = False
     if fe:
-        n = flow.simplify_term(Tr.operand(fe[0][1]["args"][1], fe[0][0], "t"))
-        dyn_ok = has(n, lambda x: is_call(x, "u16::from_be_bytes"))
-    chk.ob("R2 reader = writer", "R2|from_reader|widths", len(reads) == 3 and sizes[:2] == [16, 2] and len(be16) == 1 and dyn_ok, where(fr),
-           "read_exact sizes in order: %s; id length decoded with u16::from_be_bytes: %s; id buffer sized by it: %s" % (sizes, len(be16) == 1, dyn_ok))
+        n = N.norm(Tr.operand(fe[0][1]["args"][1], fe[0][0], "t"))
+        d = bytesview.int_decode(n)
+        # the id length is the big-endian value of the whole 2-byte buffer filled by the second read
+        if d is not None:
+            be_ok = d[0] == "be"
+            base = d[1][0]
+            dyn_ok = d[1][1] == 0 and d[1][2] == 2 and isinstance(base, tuple) and base[:1] == ("upd",) and names.is_(base[1], "Read::read_exact") and bytesview.known_len(base) == 2
+    chk.ob("R2 reader = writer", "R2|from_reader|widths", len(reads) == 3 and sizes[:2] == [16, 2] and be_ok and dyn_ok, where(fr),
+           "read_exact sizes in order: %s; id length decoded big-endian: %s; from the 2 bytes just read, and the id buffer sized by it: %s" % (sizes, be_ok, dyn_ok))
     cose = [t for bb, t in fr.calls() if names.call_is(t, "ciborium::de::from_reader")]
     chk.ob("R2 reader = writer", "R2|from_reader|cose-key-last", len(cose) == 1 and all(cose and b2 in fr.reachable(bb) for bb, _ in reads for b2 in [names.calls_to(fr, "ciborium::de::from_reader")[0][0]]) if cose else False, where(fr), "COSE key is read after the three fixed reads")
 
